@@ -275,10 +275,11 @@ def tag_of(v, env):
     if isinstance(v, types.GeneratorType):
         it = v.gi_frame.f_locals.get('.0')
         return ('app', 'call', (('atom', env.code_names.get(v.gi_code, '<genexpr:?>')), tag_of(it, env)))
+    if isinstance(v, types.FunctionType) and v.__code__ in env.code_names: return ('atom', env.code_names[v.__code__])
     if isinstance(v, Iter): return v.tag
     if isinstance(v, tuple): return ('app', 'tuple', tuple(tag_of(x, env) for x in v))
     if isinstance(v, list): return ('app', 'list', tuple(tag_of(x, env) for x in v))
-    if isinstance(v, set): return ('app', 'set', tuple(sorted((tag_of(x, env) for x in v), key=repr)))
+    if isinstance(v, set): return ('app', 'set', tuple(sorted({tag_of(x, env) for x in v}, key=repr)))
     if isinstance(v, dict): return ('app', 'map', tuple(t for k, x in v.items() for t in (tag_of(k, env), tag_of(x, env))))
     if isinstance(v, slice):
         return ('app', 'slice', tuple(tag_of(x, env) for x in ((v.start, v.stop) if v.step is None else (v.start, v.stop, v.step))))
@@ -401,6 +402,7 @@ def subst_items(tag, sub, assign=None, top=True, nonec=None):
             if (f.startswith('un:') and native[0]) or (f.startswith('bin:') and all(native)) or (f in CMPSYM.values() and native[0]) \
                     or (f.startswith('attr:') and native[0]) or (f == 'subscr' and native[0]) or (f.startswith('call') and native[0]) or (f == 'in' and native[1]):
                 raise SkipValidation('operator applied to a constant operand is computed by CPython itself')
+            if f == 'set': args = tuple(sorted(set(args), key=repr))           # a real set has no order (and no duplicates)
             if f == 'slice' and len(args) == 3 and args[2] is None: args = args[:2]      # slice(a, b, None) is slice(a, b)
             tag = fold_fstring(('app', f, args))
         if top and assign and assign.get(('none', tag)) and (nonec is None or tag in nonec) and not is_native(tag): return None
@@ -639,6 +641,15 @@ def prepare_code(code, kind, src, node=None, depth=0):
             p['ast_unsupported'] = str(e); p['model_ast'] = None; p['subs'] = []
         except Exception as e:      # an AST python itself cannot make sense of (wrong node classes, missing fields)
             p['ast_unsupported'] = 'malformed AST: %s' % type(e).__name__; p['model_ast'] = None; p['subs'] = []
+    p['model_src_ast'] = None
+    if depth == 0 and '[nested' not in src:
+        # the AST of the SOURCE text against the same bytecode: a self-check of the two models (bytecode machine, AST evaluator)
+        # on CPython's own compilation, independent of the decompiler
+        try:
+            tree = ast.parse(src, mode='eval').body
+            p['model_src_ast'] = AstModel(atoms).top(tree.body if isinstance(tree, ast.Lambda) else tree, kind)
+        except Exception:
+            p['model_src_ast'] = None
     p['names'] = atoms.names
     return p
 
@@ -668,7 +679,7 @@ def judge_tree(p, replies, limit=256):
 
 
 def request_of(p):
-    return {'op': 'check', 'code': p['model_code'], 'ast': p['model_ast']}
+    return {'op': 'check', 'code': p['model_code'], 'ast': p['model_ast'], 'src_ast': p.get('model_src_ast')}
 
 
 def values_of(e, names, cap=24):
@@ -748,6 +759,15 @@ def judge(p, reply, limit=256):
         except SkipValidation as e:
             skip.append(str(e)); return ('skip',), asked
     if validate: runners.append(model_runner)
+    res['check_source'] = reply.get('check_source')
+    src_tree = reply.get('src_tree') if validate else None
+    def src_runner(a):
+        asked = []
+        try:
+            return walk_tree(src_tree, names, a, asked, sub, nonec), asked
+        except SkipValidation as e:
+            return ('skip',), asked
+    if src_tree is not None: runners.append(src_runner)
     code2 = None
     if p['node'] is not None:
         try:
@@ -772,6 +792,10 @@ def judge(p, reply, limit=256):
             m = outs[k]; k += 1
             if m != ('skip',) and real[-1] != 'foreign' and 'native:' not in repr(real) and canon_out(m) != canon_out(real) and res['divergence'] is None and real[0] != 'exc':
                 res['divergence'] = {'assign': show_assign(assign), 'model': repr(canon_out(m)), 'real': repr(canon_out(real))}
+        if src_tree is not None:
+            m = outs[k]; k += 1
+            if m != ('skip',) and real[-1] != 'foreign' and 'native:' not in repr(real) and canon_out(m) != canon_out(real) and res['divergence'] is None and real[0] != 'exc':
+                res['divergence'] = {'assign': show_assign(assign), 'model': 'AST evaluator (eval of the source AST): ' + repr(canon_out(m)), 'real': repr(canon_out(real))}
         if code2 is not None:
             d = outs[k]
             if canon_out(d) != canon_out(real) and res['violation'] is None:
@@ -980,11 +1004,15 @@ def violation_key(kind, e):
 
 
 # ------------------------------------------------------------------------------------------------ canonical operators for keys
-TRANSPARENT_UNARY = ('neg', 'attr', 'isnone', 'isnotnone', 'attr2', 'bnot', 'pos')
-TRANSPARENT_BINARY = ('lt', 'add', 'in', 'sub', 'callkw', 'ne', 'le', 'mul', 'notin', 'call2', 'meth', 'tuple2', 'list2', 'sliceto')
+TRANSPARENT_UNARY = ('neg', 'attr', 'isnone', 'isnotnone', 'attr2', 'bnot', 'pos', 'clist', 'ctuple', 'starcall')
+TRANSPARENT_BINARY = ('lt', 'add', 'in', 'sub', 'callkw', 'ne', 'le', 'mul', 'notin', 'call2', 'meth', 'tuple2', 'list2', 'sliceto', 'gt', 'ge', 'subm', 'div', 'fdiv', 'mod', 'pow', 'shl', 'shr', 'band', 'bor', 'bxor', 'matmul', 'set2', 'dict2', 'dictk', 'kwstarcall')
 EXTRA = {'bnot': '~%s', 'pos': '+%s', 'attr2': '%s.q.r', 'ne': '%s != %s', 'le': '%s <= %s', 'mul': '%s * %s', 'notin': '%s not in %s',
          'call2': 'f(%s, %s)', 'meth': '%s.m(%s)', 'tuple2': '(%s, %s)', 'list2': '[%s, %s]', 'sliceto': '%s[:%s]',
          'fstr': "f'v{%s}w'", 'fstr2': "f'{%s!r}{%s:>4}'", 'slice3': '%s[%s:%s:%s]', 'gen': '(y for y in %s if %s)', 'genq': '(y.p for y in %s)',
+         'gt': '%s > %s', 'ge': '%s >= %s', 'subm': '%s - %s', 'div': '%s / %s', 'fdiv': '%s // %s', 'mod': '%s %% %s', 'pow': '%s ** %s',
+         'shl': '%s << %s', 'shr': '%s >> %s', 'band': '%s & %s', 'bor': '%s | %s', 'bxor': '%s ^ %s', 'matmul': '%s @ %s',
+         'set2': '{%s, %s}', 'dict2': "{'k': %s, 'j': %s}", 'dictk': '{%s: %s}', 'clist': '%s in [1, 2, 3]', 'ctuple': '%s in (1, 2)',
+         'starcall': 'f(*%s)', 'kwstarcall': 'f(%s, **%s)', 'lamarg': 'f(lambda: %s)', 'lamarg1': 'f(lambda w: %s)',
          'and3': '%s and %s and %s', 'or3': '%s or %s or %s', 'kw2': 'f(%s, k=%s, j=%s)'}
 _render_base = render
 
@@ -1044,10 +1072,12 @@ def rand_expr(rng, size, scope, value_pos=True):
         return ('a', rng.choice(scope))
     r = rng.random()
     if r < 0.22 or size == 2:
-        k = rng.choice(['not', 'not', 'neg', 'attr', 'call1', 'isnone', 'isnotnone', 'attr2', 'fstr', 'genq'] + (['bnot', 'pos'] if rng.random() < 0.1 else []))
+        k = rng.choice(['not', 'not', 'neg', 'attr', 'call1', 'isnone', 'isnotnone', 'attr2', 'fstr', 'genq'] + (['bnot', 'pos'] if rng.random() < 0.1 else [])
+                       + (['clist', 'ctuple', 'starcall', 'lamarg', 'lamarg1'] if rng.random() < 0.3 else []))
         return (k, rand_expr(rng, size - 1, scope, False))
     if r < 0.80 or size == 3:
-        k = rng.choice(['and', 'and', 'or', 'or', 'eq', 'lt', 'add', 'in', 'sub', 'callkw', 'ne', 'le', 'mul', 'notin', 'call2', 'meth', 'tuple2', 'sliceto', 'fstr2', 'gen'])
+        k = rng.choice(['and', 'and', 'or', 'or', 'eq', 'lt', 'add', 'in', 'sub', 'callkw', 'ne', 'le', 'mul', 'notin', 'call2', 'meth', 'tuple2', 'sliceto', 'fstr2', 'gen']
+                       + (['gt', 'ge', 'subm', 'div', 'fdiv', 'mod', 'pow', 'shl', 'shr', 'band', 'bor', 'bxor', 'matmul', 'set2', 'dict2', 'dictk', 'list2', 'kwstarcall'] if rng.random() < 0.35 else []))
         i = rng.randint(1, size - 2)
         if k == 'gen':
             return (k, rand_expr(rng, i, scope, False), rand_expr(rng, size - 1 - i, scope + ['y'], False))
@@ -1064,6 +1094,7 @@ def rand_program(rng):
     """-> structured program: {'lam': tree} | {'elt': tree, 'clauses': [{'target': str, 'iter': tree|None, 'conds': [tree]}]}"""
     glob = ['a', 'b', 'c', 'd']
     if rng.random() < 0.2:
+        if rng.random() < 0.4: return {'lam': rand_expr(rng, rng.randint(5, 12), glob + ['p', 'q']), 'params': 'p, q'}
         return {'lam': rand_expr(rng, rng.randint(5, 12), glob)}
     nclauses = rng.choice([1, 1, 2, 2, 3])
     scope = list(glob); clauses = []
@@ -1080,7 +1111,7 @@ def rand_program(rng):
 
 
 def render_prog(pr):
-    if 'lam' in pr: return 'lambda: (%s)' % render(pr['lam'])
+    if 'lam' in pr: return 'lambda %s: (%s)' % (pr.get('params', ''), render(pr['lam']))
     parts = []
     for c in pr['clauses']:
         part = 'for %s in %s' % (c['target'], FIRST_ITER if c['iter'] is None else '(%s)' % render(c['iter']))
@@ -1302,6 +1333,9 @@ def run_chunk(args):
         if j['truncated']: count('assignments-truncated')
         if r.get('code_tree') is not None and not j['model_unsupported']: count('model-validated-against-cpython' if not j.get('validation_skipped') else 'model-validation-skipped:' + j['validation_skipped'])
         elif r: count('model-unsupported-instruction')
+        if j.get('check_source') is True and j['status'] == 'proved-equal': count('source-text-equivalent-to-decompiled:proved (C03_source_equiv)')
+        if j.get('check_source') is True: count('self-check:source-AST-equals-bytecode:proved')
+        elif j.get('check_source') is False: count('self-check:source-AST-vs-bytecode:not-proved' + (':model-unsupported-instruction' if j['model_unsupported'] else ':constant-whose-truth-cpython-folds' if any(n.startswith('const:') for n in p['names']) else ':other'))
         if p['ast_unsupported']: count('ast-outside-checker:' + p['ast_unsupported'][:40])
         if j['check'] is False: count('disagreements_checked')
         if j['divergence']: out['divergences'].append({'src': src, **j['divergence']})
@@ -1333,6 +1367,8 @@ def run_chunk(args):
                 out['violations'].append({'key': key, 'src': src, 'minimal': msrc, 'decompiled': mj['decompiled'], 'assign': mj['violation']['assign'],
                                           'original_outcome': mj['violation']['original'], 'decompiled_outcome': mj['violation']['decompiled']})
         if len(out['samples']) < 2: out['samples'].append({'src': src, 'status': j['status'], 'decompiled': j['decompiled']})
+        if j.get('check_source') is False and not j['model_unsupported'] and not any(n.startswith('const:') for n in p['names']) and len([x for x in out['examples'] if x['status'] == 'self-check-not-proved']) < 2:
+            out['examples'].append({'src': src, 'status': 'self-check-not-proved', 'decompiled': None, 'why': 'check(bytecode, AST of the source) = false'})
         if j['status'].startswith(('checker-incomplete', 'unsupported-by-checker', 'decompiled-ast-not-compilable')) and len([x for x in out['examples'] if x['status'] == j['status']]) < 2:
             out['examples'].append({'src': src, 'status': j['status'], 'decompiled': j['decompiled'], 'why': p['ast_unsupported'] or j.get('recompile_error')})
     count('ast-cache:second-decompile-returns-the-same-tree', CACHE_STATS['same']); CACHE_STATS['same'] = 0
@@ -1443,6 +1479,17 @@ def run(ctx):
     finally:
         for d, sv in zip((UNARY, BINARY, TERNARY), saved): d.clear(); d.update(sv)
         shapes.__defaults__[0].clear()
+    # operator table: every unary / binary / comparison / display / call form the generator knows, once in every position
+    a_, b_, c_, d_ = (('a', n) for n in 'abcd')
+    for k in list(UNARY) + [x for x in ('bnot', 'pos', 'attr2', 'fstr', 'genq', 'clist', 'ctuple', 'starcall', 'lamarg', 'lamarg1')]:
+        for kind in ('cond', 'elt', 'lam'): programs.append(prog_of(kind, (k, a_)))
+    for k in list(BINARY) + ['ne', 'le', 'mul', 'notin', 'call2', 'meth', 'tuple2', 'list2', 'sliceto', 'fstr2', 'gen', 'gt', 'ge', 'subm', 'div', 'fdiv', 'mod',
+                            'pow', 'shl', 'shr', 'band', 'bor', 'bxor', 'matmul', 'set2', 'dict2', 'dictk', 'kwstarcall']:
+        for kind in ('cond', 'elt', 'lam'): programs.append(prog_of(kind, (k, a_, b_)))
+    for k in list(TERNARY) + ['and3', 'or3', 'kw2']:
+        for kind in ('cond', 'elt', 'lam'): programs.append(prog_of(kind, (k, a_, b_, c_)))
+    for kind in ('cond', 'elt', 'lam'): programs.append(prog_of(kind, ('slice3', a_, b_, c_, d_)))
+    programs.append({'lam': ('eq', ('a', 'p'), ('attr', ('a', 'q'))), 'params': 'p, q'})
     n_enum = len(programs)
     for _ in range(ctx.scale(200, 6000)):
         programs.append(rand_program(ctx.rng))
